@@ -27,6 +27,8 @@ enum SAct {
     Extend(Vec<usize>),
     /// `extend` with an iterator that does not know its length (lower size hint 0).
     ExtendLazy(Vec<usize>),
+    /// `set_unchecked` inside its documented contract (only generated for admissible positions).
+    SetUnchecked(usize),
 }
 
 #[derive(Clone, Debug)]
@@ -174,6 +176,11 @@ fn s_actions(r: &SRef) -> Vec<SAct> {
     a.push(SAct::ExtendLazy(vec![n, n.saturating_add(1)]));
     a.push(SAct::ExtendLazy(vec![n, n.saturating_add(1), n.saturating_add(2)]));
     a.push(SAct::ExtendLazy(vec![n, u]));
+    for i in [n, n.saturating_add(1)] {
+        if r.admissible(i) {
+            a.push(SAct::SetUnchecked(i));
+        }
+    }
     a
 }
 
@@ -202,6 +209,13 @@ fn s_apply(b: &mut SparseBuilder, r: &mut SRef, act: &SAct) -> Option<String> {
             if ok {
                 r.accepted.push(*i);
             }
+        }
+        SAct::SetUnchecked(i) => {
+            if !r.admissible(*i) {
+                return None; // outside the contract of the unchecked call: not a C16 case
+            }
+            unsafe { b.set_unchecked(*i) };
+            r.accepted.push(*i);
         }
         SAct::Extend(list) | SAct::ExtendLazy(list) => {
             let lazy = matches!(act, SAct::ExtendLazy(_));
@@ -244,6 +258,7 @@ fn s_name(a: &SAct) -> &'static str {
         SAct::Set(_) => "set",
         SAct::Extend(_) => "extend",
         SAct::ExtendLazy(_) => "extend(lazy)",
+        SAct::SetUnchecked(_) => "set_unchecked",
     }
 }
 
